@@ -41,8 +41,12 @@ def mutants_table():
 def seeded_table():
     lines = ['| seeded change | breaks | what it needs to manifest | confirmed | detected by |', '|---|---|---|---|---|']
     n = d = 0
+    retired = []
     for mp in sorted(glob.glob(os.path.join(HERE, 'seeded', '*', 'meta.json'))):
         m = json.load(open(mp))
+        if m.get('retired'):
+            retired.append((m['name'], m['retired']))
+            continue
         n += 1
         det = ', '.join(m.get('detected_by', []))
         if det:
@@ -52,6 +56,11 @@ def seeded_table():
                                                       det or ('not detected - ' + m.get('note', '')[:160] if m.get('note') else '**not detected**')))
     lines.append('')
     lines.append('%d independently written changes, %d detected.' % (n, d))
+    if retired:
+        lines.append('')
+        lines.append('Retired (kept under `seeded/` with the results recorded when they were valid, not counted above):')
+        for name, why in retired:
+            lines.append('* `%s` - %s' % (name, why[len('retired: '):] if why.startswith('retired: ') else why))
     return '\n'.join(lines)
 
 
